@@ -175,10 +175,12 @@ fn gen_op(r: &mut Rng, p: &Proj, epoch: i64) -> Op {
     };
     let avail = (p.balance.atto() - p.to_send.atto()).to_string().parse::<i64>().unwrap_or(0);
     let cur_red = cur.as_ref().map(|x| x.0.atto().to_string().parse::<i64>().unwrap_or(0)).unwrap_or(0);
+    // the VM credits the attached value before the actor runs: boundaries are relative to balance + value
+    let avail = avail + value;
     let amount = match if clean { 5 + r.below(7) } else { r.below(12) } {
         0 => -r.range(1, 10),                   // negative
         1 => cur_red - r.range(0, cur_red.max(1)), // decreasing voucher
-        2 => cur_red + avail + r.range(0, 3),   // at/over the balance boundary
+        2 => cur_red + avail + match r.below(4) { 0 => 0, 1 => 1, 2 => value, _ => value + 1 }, // at/over the balance boundary
         3 => cur_red + avail,
         4 => 0,
         _ => cur_red + r.range(0, (avail / 3).max(1)),
